@@ -18,8 +18,9 @@ RULE = ("mesh.hist1 / mesh.hist2 cases = one mesh + a history of operations, the
         "at interior points >= 1e-6 from the nodes (and a few inside the snapping window / outside the grid, tie only), trapezium of "
         "integer and linear data, 2-D trapezium / square_trapezium of integer and bilinear data, output + read round trips at precisions 0..9; "
         "(d) added by the special-values audit (findings/special-values-specB/C19-table.md): interpolation INSIDE the 1e-7 snapping window on both "
-        "sides of an interior node, right of the first and left of the last node (2^-24..2^-40 away; the oracle accepts the line of either cell "
-        "sharing the node and nothing else), mid-cells of the first / last cell; file round trips of values with 7..17 significant digits (large "
+        "sides of an interior node, right of the first and left of the last node (2^-24..2^-40 away; C19 states nothing exact there -- the "
+        "neighbouring line MAY be used -- so the oracle accepts any value in the hull of the nodal value and the lines of the two cells "
+        "sharing the node, plus rounding, and rejects everything outside it), mid-cells of the first / last cell; file round trips of values with 7..17 significant digits (large "
         "integer data, nodes shifted by 2^20..2^30); `fileinto` (search-only): output, then read() into a mesh that already HOLDS non-zero data on "
         "fewer / as many / more nodes (file data with zeros, equal neighbours, alternating signs), then the index path, the guarded path, coord and "
         "the quadrature of every variable on the mesh read, and the writer again; `paths1` / `paths2`: every ordered pair of write paths on one node "
@@ -232,8 +233,8 @@ def gen_hist1(rng, tier, cases):
         qs = g.shuffle(qs)[:8] + [("interp", nodes[-1]), ("interp", nodes[0])]
         if h % 5 in (1, 3):
             # INSIDE the 1e-7 snapping window, on BOTH sides of a node and inside the grid (left of an interior node, right of it, right
-            # of the first node, left of the last one) at distances 2^-24 .. 2^-40: the property allows the line of either cell that
-            # shares the node there, and nothing else (meshlib.interp_expected)
+            # of the first node, left of the last one) at distances 2^-24 .. 2^-40: the property allows the nodal value, the line of
+            # either cell that shares the node and anything between them there (meshlib.interp_expected), nothing outside that hull
             k = g.range(1, n - 2) if n >= 3 else 0
             for node, sides in ((k, (-1, 1) if n >= 3 else (1,)), (0, (1,)), (n - 1, (-1,))):
                 for sg in sides:
